@@ -134,6 +134,7 @@ func (s *Server) RegisterService(sd *grpc.ServiceDesc, ss interface{}) {
 
 func (s *Server) Serve(ctx context.Context, rw RpcReadWriter) error {
 	h := newHandler(s.ctx, s, rw)
+	vEmit("srv.new", h, 0, 0, "")
 	err := h.serve(ctx)
 	vEmit("srv.serve.exit", h, 0, 0, "")
 	h.cancelAndWaitForStreams()
